@@ -162,13 +162,13 @@ Proof.
 Qed.
 
 Definition idx_ok (res : list ival) (idx : N) (p : list ival) (a2 : N) : Prop :=
-  idx = 0 \/ exists r, firstn (N.to_nat idx) res = p ++ r /\ forall b, In b r -> snd b <= a2.
+  idx = 0 \/ (idx <= N.of_nat (length res) /\ exists r, firstn (N.to_nat idx) res = p ++ r /\ forall b, In b r -> snd b <= a2).
 
 Lemma idx_ok_at : forall p x k a2 r, N.of_nat (length p) = k -> firstn (length r) x = r ->
   (length r <= length x)%nat -> (forall b, In b r -> snd b <= a2) ->
   idx_ok (p ++ x) (k + N.of_nat (length r)) p a2.
 Proof.
-  intros p x k a2 r Hk Hf Hl Hr. right. exists r. split; [|assumption].
+  intros p x k a2 r Hk Hf Hl Hr. right. split; [rewrite app_length; lia|]. exists r. split; [|assumption].
   replace (N.to_nat (k + N.of_nat (length r))) with (length p + length r)%nat by lia.
   rewrite firstn_app_len. f_equal. exact Hf.
 Qed.
@@ -334,7 +334,7 @@ Proof.
         match type of IH with match ?Y with _ => _ end => destruct Y as [[res idx]|] end.
         -- destruct IH as (Hres & Hidx & Hcp). rewrite <- app_assoc in Hres. cbn [app] in Hres.
            split; [exact Hres|]. split; [|cbn [length]; intros; apply Hcp; lia].
-           destruct Hidx as [->|(r0 & Hr0 & Hr1)]; [left; reflexivity|]. right. exists ((c, d) :: r0).
+           destruct Hidx as [->|(Hb0 & r0 & Hr0 & Hr1)]; [left; reflexivity|]. right. split; [exact Hb0|]. exists ((c, d) :: r0).
            rewrite <- app_assoc in Hr0. cbn [app] in Hr0. split; [exact Hr0|].
            intros b' [<-|Hb']; [cbn [snd]; lia|auto].
         -- destruct IH as [H1 H2]. split; [cbn [length]; lia|exact H2].
